@@ -570,6 +570,7 @@ def genmix_rule(P, R):
     every cell with its former stagnant partner - cell i after an advective shift is then not the previous solution of its upstream
     neighbour, and mass is created.  transport_cleanup() must clear the store under the condition under which transport() generates into
     it (compared as a set of conjuncts on stag_data)."""
+    from .. import ratfun as RF
     RULE = "C11.genmix"
     R.rule(RULE, "MIX recipes generated by transport() for first-order stagnant exchange are removed by transport_cleanup() under the same condition", minimum=1)
     tr, cl = P.one("Phreeqc::transport"), P.one("Phreeqc::transport_cleanup")
@@ -605,16 +606,78 @@ def genmix_rule(P, R):
             y[0] == "Call" and T.callee_name(y) == "operator[]" and y[4] and any(z[0] == "Member" and z[2] == "Phreeqc::Rxn_mix_map" for z in T.walk(y[4][0])) for y in T.walk(x[4][0]))
 
     def is_clear(x):
-        return x[0] == "Call" and T.callee_name(x) == "clear" and T.call_obj(x) is not None and any(
+        return x[0] == "Call" and T.callee_name(x) in ("clear", "erase") and T.call_obj(x) is not None and any(
             y[0] == "Member" and y[2] == "Phreeqc::Rxn_mix_map" for y in T.walk(T.call_obj(x)))
+
+    # index sets: the numbers generated and the numbers erased, as polynomials in the loop variable (renamed `v`) and count_cells
+    def loop_var_defs(fn):
+        defs = {}
+        for x in T.walk(fn["body"]):
+            if x[0] == "Bin" and x[2] == "=" and T.is_node(T.strip_casts(x[3])) and T.strip_casts(x[3])[0] == "Ref" and T.strip_casts(x[3])[2] == "local":
+                defs.setdefault(T.strip_casts(x[3])[3], []).append(x[4])
+        return defs
+
+    def index_poly(fn, e, loopvars):
+        defs = loop_var_defs(fn)
+
+        def sym(n):
+            if n[0] == "Ref" and n[3] in loopvars:
+                return "v"
+            if n[0] == "Ref" and n[2] == "local" and n[3] in defs and len(defs[n[3]]) == 1:
+                return None
+            if n[0] in ("Ref", "Member"):
+                return (n[3] if n[0] == "Ref" else n[2].split("::")[-1])
+            return None
+
+        def conv(n):
+            n = T.strip_casts(n)
+            if T.is_node(n) and n[0] == "Paren":
+                return conv(n[2])
+            if T.is_node(n) and n[0] == "Ref" and n[2] == "local" and n[3] not in loopvars and n[3] in defs and len(defs[n[3]]) == 1:
+                return conv(defs[n[3]][0])
+            if T.is_node(n) and n[0] == "Bin" and n[2] in ("+", "-", "*"):
+                a, b = conv(n[3]), conv(n[4])
+                return a + b if n[2] == "+" else a - b if n[2] == "-" else a * b
+            return RF.from_tree(n, sym)
+        return conv(e)
+
+    def enclosing_loop_vars(fn):
+        out = {}
+        for lp in T.walk(fn["body"]):
+            if lp[0] == "For" and T.is_node(lp[3]) and lp[3][0] == "Bin":
+                v = T.strip_casts(lp[3][3])
+                if T.is_node(v) and v[0] == "Ref":
+                    for x in T.walk(lp[5]):
+                        out.setdefault(id(x), set()).add(v[3])
+        return out
     gens = guarded(tr, is_gen)
     if not gens:
         R.anchor_missing(RULE, "transport() no longer generates entries of Rxn_mix_map")
         return
     want = {c for _, c in gens}
     clears = {c for _, c in guarded(cl, is_clear)}
-    for line, c in sorted(gens):
+    whole = any(is_clear(x) and T.callee_name(x) == "clear" for x in T.walk(cl["body"]))
+    gen_idx, era_idx = [], []
+    try:
+        lv = enclosing_loop_vars(tr)
+        for x in T.walk(tr["body"]):
+            if is_gen(x):
+                for y in T.walk(x[4][0]):
+                    if y[0] == "Call" and T.callee_name(y) == "operator[]" and len(y[4]) == 2:
+                        gen_idx.append(index_poly(tr, y[4][1], lv.get(id(x), set())))
+        lv = enclosing_loop_vars(cl)
+        for x in T.walk(cl["body"]):
+            if is_clear(x) and T.callee_name(x) == "erase" and x[4]:
+                era_idx.append(index_poly(cl, x[4][0], lv.get(id(x), set())))
+    except RF.NotRational as e:
+        R.anchor_missing(RULE, "index of a generated / erased MIX entry not a polynomial (%s)" % e)
+        return
+    for (line, c), gi in zip(sorted(gens), gen_idx if len(gen_idx) == len(gens) else [None] * len(gens)):
         inst = "transport@%d" % line
+        if not whole and (gi is None or not any(gi.same(e) for e in era_idx)):
+            R.violation(RULE, inst, "transport() generates the MIX entry number %r but transport_cleanup() erases only %r: the recipe survives the run and a later ADVECTION / "
+                        "RUN_CELLS mixes the cell with its former stagnant partner" % (gi, era_idx), file=cl["file"], line=cl["line"], function=cl["q"])
+            continue
         if any(cc <= c for cc in clears):
             R.ok(RULE, inst, "generated under {%s}; transport_cleanup clears the store under a condition that covers it" % ", ".join(sorted(c)))
         else:
